@@ -243,6 +243,10 @@ class NoAnswer(Exception):
     pass
 
 
+class Abort(Exception):
+    """the registration API itself failed: model and site have diverged, the history ends here"""
+
+
 class RawClient:
     """CON requests from a raw endpoint; returns the response carrying the token."""
 
@@ -407,7 +411,12 @@ class Scenario:
     # -- operations ----------------------------------------------------------------------
     def real_add(self, site, path, robj):
         rs = self.real[id(site)]
-        rs.add_resource(list(path) if self.r.random() < 0.5 else tuple(path), robj)
+        arg = list(path) if self.r.random() < 0.5 else tuple(path)
+        try:
+            rs.add_resource(arg, robj)
+        except Exception as e:
+            self.violation("ops/add_resource-raises/" + type(e).__name__, "Site.add_resource(%r, ...) raised %r" % (arg, e), traceback=self.rep.exception_witness(e))
+            raise Abort()
 
     def op_add_leaf(self, site=None, path=None):
         r = self.r
@@ -467,7 +476,13 @@ class Scenario:
                     for kind, full, _o in self._below(t, pre + path):
                         self.removed_paths.append(full)
             self.rep.count("op_remove_sub")
-        self.real[id(site)].remove_resource(list(path) if r.random() < 0.5 else tuple(path))
+        arg = list(path) if r.random() < 0.5 else tuple(path)
+        try:
+            self.real[id(site)].remove_resource(arg)
+        except Exception as e:
+            self.ops.append(["remove_resource", site.name, list(path)])
+            self.violation("ops/remove_resource-raises/" + type(e).__name__, "Site.remove_resource(%r) raised %r for a path that is registered" % (arg, e), traceback=self.rep.exception_witness(e))
+            raise Abort()
         self.ops.append(["remove_resource", site.name, list(path)])
         return self.touch(site, path, "removed")
 
@@ -532,6 +547,11 @@ class Scenario:
         return tuple(p)
 
     # -- judging ---------------------------------------------------------------------------------
+    def violation(self, key, what, **kw):
+        v = self.rep.violations.get(key)
+        full = v is None or len(v["witnesses"]) < self.rep.MAX_WITNESSES_PER_KEY
+        self.rep.violation(key, what, self.witness(**kw) if full else None, self.case)
+
     def witness(self, **kw):
         w = {"tree": dump_tree(self.sites[0]), "last_operations": self.ops[-6:], "server": "%s port %d" % (self.ip, self.port)}
         w.update(kw)
@@ -561,7 +581,7 @@ class Scenario:
         rootmount = "rootmount" in tr
 
         def viol(key, what, **kw):
-            rep.violation(key, what, self.witness(request=desc, expected_one_of=exp_desc, response_code=code, response_payload=m.payload[:40].decode("utf8", "replace"), handlers_that_ran=[{**h, "path": list(h["path"])} for h in ran], decided_by=tr, **kw), self.case)
+            self.violation(key, what, request=desc, expected_one_of=exp_desc, response_code=code, response_payload=m.payload[:40].decode("utf8", "replace"), handlers_that_ran=[{**h, "path": list(h["path"])} for h in ran], decided_by=tr, **kw)
 
         # -- which handler ------------------------------------------------------------
         if len(ran) > 1:
@@ -656,7 +676,7 @@ class Scenario:
         want = subset(all_links)
 
         def viol(key, what, **kw):
-            rep.violation(key, what, self.witness(request=desc, response_code=code, payload=body[:1500].decode("utf8", "replace"), expected_links=sorted(self.fmt(l) for l in want), **kw), self.case)
+            self.violation(key, what, request=desc, response_code=code, payload=body[:1500].decode("utf8", "replace"), expected_links=sorted(self.fmt(l) for l in want), **kw)
 
         if code != "2.05":
             if len(query) == 1 and code == "5.00" and pat.endswith("*") and any(reflink.has(l, name) and not reflink.values(l, name) for l in all_links):
@@ -966,6 +986,8 @@ def run_shard(shard, rep, only=None):
                 coro = scn.run_random()
             try:
                 loop.run_until_complete(coro)
+            except Abort:
+                rep.count("history_aborted_after_registration_api_exception")
             except NoAnswer as e:
                 rep.inconc("case %r: %s" % (case, e))
             except (vloop.Hang, vloop.HorizonExceeded) as e:
